@@ -6,7 +6,8 @@
    well formed (distinct bits, marker bit free, extended fields behind byte >= 4, every field
    covered) - COMPUTED; the round trip, the short form, the record size are proved for any such schema.
    Two layers: (1) archive API level, fully proved: the reader inverts the writer on the archive value;
-   (2) byte level: with the bin-archive round trip as an explicit premise (C01 discharges it; no axiom).
+   (2) byte level: relative to the bin-archive round trip as an explicit premise (C18_round_trip), and with that
+       premise discharged by C01 through Proofs/RecsBinBridge.v (C18_round_trip_final: no premise, no axiom).
    A spec: sp_name, sp_strs (33 optional strings), sp_typed (18 x (use flag, 32-bit pattern)).
    wf_spec = 33 + 18 fields, values < 2^32, NORMAL FORM: an absent typed field holds its default 0
    (the file does not store it; the code needs this: Example C18_normal_form_needed).
@@ -53,10 +54,16 @@ Proof. exact from_archive_obs_equal. Qed.
 
 (* ---- (2) byte level; premise = bin-archive round trip on the archives this writer builds ---- *)
 Theorem C18_round_trip : forall m,
-  (forall a, ba_wf a -> exists f a', BinFormat.serialize m a = Ok f /\ BinFormat.from_bytes LE f = Ok a' /\ obs_equal a a') ->
+  (forall a, ba_wf a -> image_bound a + 3 < 2 ^ 32 ->
+     exists f a', BinFormat.serialize m a = Ok f /\ BinFormat.from_bytes LE f = Ok a' /\ obs_equal a a') ->
   forall b, wf_bin_bytes b ->
   exists f, serialize m b = Ok f /\ parse f = Ok b /\ (forall b', parse f = Ok b' -> serialize m b' = Ok f).
 Proof. exact round_trip_bytes. Qed.
+(* ... and with that premise discharged by the bin-archive round trip C01 (Proofs/RecsBinBridge.v): for every
+   arithmetic mode, serialize succeeds, parse returns the same value, re-serializing what was read gives the same bytes *)
+Theorem C18_round_trip_final : forall m b, wf_bin_bytes b ->
+  exists f, serialize m b = Ok f /\ parse f = Ok b /\ (forall b', parse f = Ok b' -> serialize m b' = Ok f).
+Proof. exact round_trip_bytes_final. Qed.
 (* the premise is used on a well-formed archive: what the writer builds satisfies ba_wf *)
 Theorem C18_built_archive_wf : forall b, wf_bin_bytes b -> ba_wf (arch_of (src_file_cells b) []).
 Proof. exact built_archive_wf. Qed.
@@ -81,6 +88,11 @@ Theorem C18_record_size : forall sp a,
     fields_present sp + marker = popcount_flags fl /\
     snd (compute_flags sp) = lenN fl + 4 + 4 * fields_present sp.
 Proof. exact record_size. Qed.
+
+(* ---- the data region is header word + the announced record sizes + trailing word, and that is the data-size field of the file ---- *)
+Theorem C18_data_size : forall m b f, 4 + announced_total (ab_specs b) + 4 < 2 ^ 32 -> serialize m b = Ok f ->
+  u32_at LE f 4 = Some (4 + announced_total (ab_specs b) + 4).
+Proof. exact data_size_field. Qed.
 
 (* ---- the read loop stops at the trailing zero word ---- *)
 Theorem C18_read_loop_stops : forall b, wf_bin b ->
